@@ -132,8 +132,17 @@ func c20DecodeOracle(in c20DecIn) probe.Outcome {
 		var err error
 		var hdr *message.IKEHeader
 		if in.WithHdr {
-			if hdr, err = message.ParseHeader(x); err != nil {
+			// the header is parsed where the datagram arrived; in every other case that is another buffer than the one handed to
+			// DecodeDecrypt (a copy was queued) and it holds the next datagram by then
+			src := x
+			if len(in.W)%2 == 1 {
+				src = append([]byte(nil), x...)
+			}
+			if hdr, err = message.ParseHeader(src); err != nil {
 				return err
+			}
+			if len(in.W)%2 == 1 {
+				scribble(src, 1)
 			}
 		}
 		m, err = ike.DecodeDecrypt(x, hdr, sa, bridge.Role(in.RecvI))
@@ -143,6 +152,19 @@ func c20DecodeOracle(in c20DecIn) probe.Outcome {
 		if in.Protect {
 			return probe.Fail("genuine protected message rejected: %v", err)
 		}
+		if in.WithHdr && in.Path != "" && !probe.IsPanic(err) {
+			// refused with a pre-parsed header: then it is refused without one as well (the datagram is the same)
+			var sa2 *security.IKESAKey
+			if in.Path == "dd-key" {
+				sa2, _ = bridge.NewSA(in.Suite, *in.Keys)
+			}
+			if e2 := probe.Try(func() error {
+				_, e := ike.DecodeDecrypt(probe.Exact(in.W), nil, sa2, bridge.Role(in.RecvI))
+				return e
+			}); e2 == nil {
+				return probe.Fail("a datagram is refused when its header was parsed beforehand (in another buffer, since reused) and accepted when it was not: %v", err)
+			}
+		}
 		return probe.OK(false, append(labels, "rejected")...)
 	}
 	before, err := bridge.FromLib(m)
@@ -151,6 +173,14 @@ func c20DecodeOracle(in c20DecIn) probe.Outcome {
 	}
 	if p := overlapsBuffer(m.Payloads, x); p != "" {
 		return probe.Fail("decoded field %s shares memory with the input buffer", p)
+	}
+	if len(in.W)%4 == 2 || len(in.W) < 64 {
+		if err := probe.Try(func() error { probe.PrintAll(m); return nil }); err != nil { // the receiver logs what it decoded
+			return probe.Fail("printing the decoded message: %v", err)
+		}
+		if printed, perr := bridge.FromLib(m); perr != nil || model.Diff(before, printed) != "" {
+			return probe.Fail("printing the decoded message and its parts (%%v) changed it: %s (%v)", model.Diff(before, printed), perr)
+		}
 	}
 	hdrBefore := *m.IKEHeader
 	// what the decoded message encodes to while the receive buffer still holds the datagram ...
@@ -206,6 +236,31 @@ func c20DecodeOracle(in c20DecIn) probe.Outcome {
 			} else if !bytes.Equal(first, y) {
 				return probe.Fail("repeated encodings of the same decoded, unmodified message differ (repetition %d)\n first %x\n now   %x", i+1, first, y)
 			}
+		}
+	}
+	// The receiver turns the decoded message into its answer (another payload in front, the header edited) and encodes it:
+	// the octets go into a buffer of their own - the receive buffer, which may hold the next datagram by now, is not written to.
+	if !in.Protect {
+		snap := append([]byte(nil), x[:cap(x)]...)
+		var ans []byte
+		aerr := probe.Try(func() error {
+			var fresh message.IKEPayloadContainer
+			fresh.BuildNonce([]byte{0xa5, 0x5a, 0xa5, 0x5a, 0xa5, 0x5a, 0xa5, 0x5a, 0xa5})
+			m.Payloads = append(fresh, m.Payloads...)
+			m.Flags ^= 0x20
+			m.MessageID++
+			var e error
+			ans, e = m.Encode()
+			return e
+		})
+		if probe.IsPanic(aerr) {
+			return probe.Fail("encoding the decoded message after the receiver edited it: %v", aerr)
+		}
+		if !bytes.Equal(snap, x[:cap(x)]) {
+			return probe.Fail("encoding the decoded, edited message wrote to the receive buffer the message was decoded from")
+		}
+		if aerr == nil && overlapsBuffer(ans, x) != "" {
+			return probe.Fail("the encoding of the decoded, edited message lies inside the receive buffer")
 		}
 	}
 	variable := false
@@ -276,6 +331,12 @@ var c20Encode = probe.Define("C20", "encode-pure", func(t *rapid.T) c20EncIn {
 	for i := range ys {
 		if err := probe.Try(func() error { var e error; ys[i], e = lm.Encode(); return e }); err != nil {
 			return probe.Fail("Encode #%d: %v", i+1, err)
+		}
+		if i == 0 {
+			// the message and its parts are logged between two encodings
+			if err := probe.Try(func() error { probe.PrintAll(lm); return nil }); err != nil {
+				return probe.Fail("printing the message: %v", err)
+			}
 		}
 		after, err := bridge.FromLib(lm)
 		if err != nil {
